@@ -32,8 +32,11 @@ def gen_history(r, quick, ids):
             c = r.choice(SCRATCH)
             key = "k%d" % r.randrange(6)
             k = r.random()
-            if k < 0.16:
+            if k < 0.12:
                 ops.append(X.op_store_set(ids, frm, key, r.randrange(1, 100)))
+            elif k < 0.20:
+                ops.append(r.choice([X.op_store_get(ids, frm, key), X.op_get_interchain(ids, frm, "chainZ:svcQ"),
+                                     X.op_register_interchain(ids, frm, "chainZ:svcQ"), X.op_delete_interchain(ids, frm, "chainZ:svcQ")]))
             elif k < 0.46:
                 ops.append(X.op_stub(ids, frm, c, r.choice(["set", "setobj", "del", "add", "addobj"]), key, r.randrange(100, 200)))
             elif k < 0.54:
@@ -53,6 +56,8 @@ def gen_history(r, quick, ids):
                 ops.append(X.op_ibtp_ok(ids, r.choice(rich), next_index))
                 next_index += 1
         blocks.append(ops)
+        if r.random() < 0.2:
+            blocks.append(RESTART)
     views = []
     if r.random() < 0.5:
         frm = r.choice(list(level.keys()))
@@ -61,10 +66,62 @@ def gen_history(r, quick, ids):
     return dict(cfg=dict(admins=admins, gas=price, audit=False, bal="1000000000000000"), pre=pre, blocks=blocks, views=views)
 
 
+RESTART = "RESTART"
+
+
 def to_history(g):
-    steps = g["pre"] + [X.blk([])] + [X.blk([o["tx"] for o in ops], **g.get("blk_kw", {})) for ops in g["blocks"]]
+    steps = g["pre"] + [X.blk([])]
+    for ops in g["blocks"]:
+        if ops == RESTART:
+            steps.append({"op": "restart"})
+        else:
+            steps.append(X.blk([o["tx"] for o in ops], **g.get("blk_kw", {})))
     steps += [{"op": "view", "tx": o["tx"]} for o in g.get("views", [])]
     return {"cfg": g["cfg"], "steps": steps, "timeout_ms": 60000}
+
+
+def without_failed(g, out):
+    """the same history without the transactions whose receipt is FAILED (metamorphic reference); returns
+    (g_ref, per block: list of original indices kept) or None when the run is incomplete"""
+    steps = out.get("steps") or []
+    npre = len(g["pre"]) + 1
+    blocks, keep = [], []
+    for bi, ops in enumerate(g["blocks"]):
+        si = npre + bi
+        if ops == RESTART:
+            blocks.append(RESTART)
+            keep.append([])
+            continue
+        if si >= len(steps) or steps[si].get("receipts") is None and ops:
+            return None
+        recs = steps[si].get("receipts") or []
+        idx = [i for i, rc in enumerate(recs) if rc[0] == 0]
+        blocks.append([ops[i] for i in idx])
+        keep.append(idx)
+    return dict(cfg=g["cfg"], pre=g["pre"], blocks=blocks, views=[], blk_kw=g.get("blk_kw", {})), keep
+
+
+def block_traces(g, out, ids):
+    """per block of g: (store shadow after the block, {tx index: value returned}) - for the metamorphic comparison"""
+    steps = out.get("steps") or []
+    hist = to_history(g)
+    sh = X.Shadow(hist["cfg"]["admins"], hist["cfg"]["bal"])
+    npre = len(g["pre"]) + 1
+    res = []
+    for si, st in enumerate(hist["steps"]):
+        if si >= len(steps):
+            break
+        ob = steps[si]
+        if st["op"] == "block":
+            if ob.get("receipts") is None and st["txs"]:
+                break
+            sh.apply_block(ob)
+            if si >= npre:
+                res.append((dict(sh.store), {i: (rc[5] if len(rc) > 5 else None) for i, rc in enumerate(ob.get("receipts") or [])},
+                            [rc[0] == 0 for rc in (ob.get("receipts") or [])]))
+        elif st["op"] == "restart":
+            res.append((dict(sh.store), {}, []))
+    return res
 
 
 def corpus_histories(ids):
@@ -98,10 +155,25 @@ def corpus_histories(ids):
         mk([f("u:1", 100000), f("u:2", 1)], [[X.op_transfer("u:1", "u:2", "90000")]], gas=1),
         # bad signature in a non-local block
         mk([f("u:1", 1)], [[X.op_bad_signature(ids, "u:1", "k1", 3), X.op_store_set(ids, "u:2", "k2", 4)]], blk_kw={"local": False}),
+        # cold cache: key committed, node restarted, FAILED blind overwrite (fee) after another tx loaded the contract, reads
+        mk([f("u:0", 10**12), f("u:1", 1)],
+           [[X.op_store_set(ids, "u:0", "k1", 70)], RESTART,
+            [X.op_store_set(ids, "u:0", "k2", 71), X.op_store_set(ids, "u:1", "k1", 79), X.op_store_get(ids, "u:0", "k1")],
+            [X.op_store_get(ids, "u:0", "k1")], RESTART, [X.op_store_get(ids, "u:0", "k1")]], gas=1),
+        # the same with a contract error instead of the fee: InterBroker counter written before the restart
+        mk([f("u:0", 10**12)],
+           [[X.op_emit_bad_funcs(ids, "u:0")], [X.op_register_interchain(ids, "u:0", "chainZ:svcQ")], RESTART,
+            [X.op_get_interchain(ids, "u:0", "chainA:nosuch"), X.op_register_interchain(ids, "u:0", "chainZ:svcQ"), X.op_get_interchain(ids, "u:0", "chainZ:svcQ")]]),
+        # deletion marker: a SUCCESSFUL delete of a committed key, then a FAILED write of the same key in the same block, reads
+        mk([f("u:0", 10**12), f("u:1", 1)],
+           [[X.op_register_interchain(ids, "u:0", "chainZ:svcQ")],
+            [X.op_delete_interchain(ids, "u:0", "chainZ:svcQ"), X.op_register_interchain(ids, "u:1", "chainZ:svcQ"), X.op_get_interchain(ids, "u:0", "chainZ:svcQ")],
+            [X.op_get_interchain(ids, "u:0", "chainZ:svcQ")], RESTART, [X.op_get_interchain(ids, "u:0", "chainZ:svcQ")]], gas=1),
     ]
 
 
-def build_rows(g, out, flagsets, ids):
+def build_rows(g, out, flagsets, ids, ref=None):
+    """ref = (g_ref, keep, out_ref): the run of the same history without its FAILED transactions"""
     g = X.revive_ops(g)
     rows, views = [], []
     steps = out.get("steps") or []
@@ -109,6 +181,9 @@ def build_rows(g, out, flagsets, ids):
     run = X.Run(hist, out, ids)
     npre = len(g["pre"]) + 1
     genesis, price = int(g["cfg"]["bal"]), g["cfg"]["gas"]
+    tr_o = block_traces(g, out, ids) if ref else None
+    tr_r = block_traces(ref[0], ref[2], ids) if ref else None
+    warm = None                      # None: no restart so far (every committed key may be cached)
     for si, st in enumerate(hist["steps"]):
         if si >= len(steps):
             rows.append((None, dict(block=si, problem="missing step (crash?)")))
@@ -117,29 +192,57 @@ def build_rows(g, out, flagsets, ids):
         if st["op"] == "view":
             views.append((si, ob))
             continue
+        if st["op"] == "restart":
+            warm = []
+            continue
         if st["op"] != "block":
             run.sh.apply_pre(st)
             continue
         if si < npre:
             run.sh.apply_block(ob)
             continue
-        ops = g["blocks"][si - npre]
+        bi = si - npre
+        ops = g["blocks"][bi]
         if ob.get("hang") or ob.get("receipts") is None:
             rows.append((None, dict(block=si, problem="hang")))
             break
-        xrow, info = run.xcase(ob, ops, flagsets, genesis, price, opaque=False)
+        meta = []
+        if ref and bi < len(tr_o) and bi < len(tr_r):
+            keep = ref[1][bi]
+            so, ro, oko = tr_o[bi]
+            sr, rr, okr = tr_r[bi]
+            if all(okr):             # comparable only if the kept transactions still succeed
+                keys = set()
+                for o in ops:
+                    keys.update(X.body_keys(X.resolve_obs_values(o["body"], ids, ob.get("state"))))
+                rev = {ids.key(cs, ks): (cs, ks) for (cs, ks) in list(so.keys()) + list(sr.keys())}
+                def mv(v):
+                    # values the generator wrote are compared exactly; contract-made records (they may embed the
+                    # transaction hash, which changes when other transactions are removed) by presence only
+                    return v if (v is None or isinstance(v, int)) else 1
+                for k in sorted(keys):
+                    if k in rev:
+                        meta.append((mv(so.get(rev[k])), mv(sr.get(rev[k]))))
+                for j, i in enumerate(keep):
+                    if X.body_reads(ops[i]["body"]):
+                        meta.append((mv(ro.get(i)), mv(rr.get(j))))
+        xrow, info = run.xcase(ob, ops, flagsets, genesis, price, opaque=False, warm=warm, meta=meta)
         run.sh.apply_block(ob)
-        fails_after_write = any((not ok) and o["tag"] in ("write_then_fail", "ibtp_fails_after_writes", "ibtp_ok") or
-                                ((not ok) and o["tag"].startswith("stub_")) for o, ok in zip(ops, info["recs"]))
-        info.update(block=si, tags=[o["tag"] for o in ops], nontrivial=fails_after_write)
+        if warm is not None:
+            warm = list(dict.fromkeys(warm + info["keys"]))
+        fails_after_write = any((not ok) and o["tag"] in ("write_then_fail", "ibtp_fails_after_writes", "ibtp_ok", "store_set", "register_interchain")
+                                or ((not ok) and o["tag"].startswith("stub_")) for o, ok in zip(ops, info["recs"]))
+        info.update(block=si, tags=[o["tag"] for o in ops], nontrivial=fails_after_write, meta=len(meta), cold=warm is not None)
+        info.pop("keys", None)
         rows.append((xrow, info))
     return hist, rows, views
 
 
-def judge(ctx, items, flagsets, ids):
+def judge(ctx, items, flagsets, ids, refs=None):
+    """items: list of (g, out); refs: optional dict id(g) -> (g_ref, keep, out_ref)"""
     flat, allviews = [], []
     for g, out in items:
-        hist, rows, views = build_rows(g, out, flagsets, ids)
+        hist, rows, views = build_rows(g, out, flagsets, ids, ref=(refs or {}).get(id(g)))
         for row, info in rows:
             info["g"] = g
             flat.append((hist, out, row, info))
@@ -154,8 +257,22 @@ def judge(ctx, items, flagsets, ids):
     return [(h, o, info, (next(it) if row is not None else (2, 900))) for h, o, row, info in flat], allviews
 
 
-def evaluate(ctx, items, flagsets, open_map, ids, exe=None):
-    res, views = judge(ctx, items, flagsets, ids)
+def reference_runs(exe, items):
+    """run every history again without its FAILED transactions"""
+    gs, idx = [], []
+    for g, out in items:
+        r = without_failed(X.revive_ops(g), out)
+        if r is not None:
+            gs.append(r)
+            idx.append(g)
+    outs, _ = X.run_histories(exe, [to_history(gr) for gr, _ in gs]) if gs else ([], "")
+    if outs is None:
+        return {}
+    return {id(g): (gr, keep, o) for g, (gr, keep), o in zip(idx, gs, outs)}
+
+
+def evaluate(ctx, items, flagsets, open_map, ids, exe=None, refs=None):
+    res, views = judge(ctx, items, flagsets, ids, refs)
     for hist, g, si, ob in views:
         ok = ob.get("meta_same") and ob.get("ndiff") == 0 and ob.get("view_ndiff", 0) == 0 and ob.get("nrec") == 1
         ctx.count(case_key=json.dumps(["view", hist["cfg"], hist["steps"][si]], sort_keys=True), nontrivial=True)
@@ -203,7 +320,8 @@ def maybe_shrink(ctx, rep, v, flagsets, open_map, ids, exe):
         outs, _ = X.run_histories(exe, [to_history(g2)])
         if outs is None:
             return None
-        res = judge(ctx, [(g2, outs[0])], flagsets, ids)
+        refs = reference_runs(exe, [(g2, outs[0])])
+        res = judge(ctx, [(g2, outs[0])], flagsets, ids, refs)
         res = res[0] if isinstance(res, tuple) else res
         for _, _, info, vv in (res or []):
             if vv[0] == 2 and vv[1] // 100 == pred and "block" in info:
@@ -237,10 +355,17 @@ def run(ctx):
         if outs is None:
             ctx.broken("driver:execframe", e)
         else:
-            evaluate(ctx, list(zip(items, outs)), flagsets, open_map, ids, exe)
+            pairs = list(zip(items, outs))
+            nmeta = len(corpus_histories(X.Ids())) + (60 if ctx.quick else 600)
+            refs = reference_runs(exe, pairs[:nmeta])
+            ctx.extra["metamorphic_reference_runs"] = len(refs)
+            evaluate(ctx, pairs, flagsets, open_map, ids, exe, refs)
             tags = {}
             for g in items:
                 for b in g["blocks"]:
+                    if b == RESTART:
+                        tags["restart"] = tags.get("restart", 0) + 1
+                        continue
                     for o in b:
                         tags[o["tag"]] = tags.get(o["tag"], 0) + 1
             ctx.extra["frame_distribution"] = dict(histories=len(items), op_kinds=tags)
@@ -261,7 +386,8 @@ def replay(ctx, path):
     if outs is None:
         print(e)
         return 1
-    res, views = judge(ctx, [(g, outs[0])], flagsets, ids)
+    refs = reference_runs(exe, [(g, outs[0])])
+    res, views = judge(ctx, [(g, outs[0])], flagsets, ids, refs)
     vs = [(i.get("block"), v) for _, _, i, v in (res or [])]
     print(json.dumps(dict(impl=outs[0], verdicts=vs, flagsets=[sorted(f) for f in flagsets])))
     return 1 if res is None or any(v[0] != 0 for _, v in vs) else 0
